@@ -577,6 +577,11 @@ func (fc *FCtx) specCall(n *SNode, env *Env) Val {
 	case "enc":
 		evalArgs()
 		return Val{T: app(fc.encFn(args[0].S), args[0].T), S: fc.U.BzSort()}
+	case "isnilptr":
+		evalArgs()
+		fname := "isnil_" + args[0].S.Name
+		fc.U.Fun(fname, []*Sort{args[0].S}, SBool)
+		return Val{T: app(fname, args[0].T), S: SBool}
 	case "bzmk":
 		evalArgs()
 		var es []string
